@@ -72,13 +72,13 @@ PENDING = {}
 
 # what the seeded waves 3-5 added to each check (DESIGN.md sections 9.8, 9.10, 9.11)
 ADDED = {
- "C01": " Added: DATA buffers of several segments, a per-message send limit under batching, a compressed message of exactly the default receive limit, drivers that treat Pending without a wake-up as a stall.",
+ "C01": " Added: DATA buffers of several segments, a per-message send limit under batching, a compressed message of exactly the default receive limit, drivers that treat Pending without a wake-up as a stall, runs of 200 (thorough 1500) small messages in one DATA frame / in blocks / dripped.",
  "C02": " Added: empty DATA frames, message sources announcing exact sizes, a quarter of the cases made twice on the same client / channel and server.",
  "C03": " Added: handler metadata carrying its own grpc-encoding, clones of the configured client, responses produced by the server's middleware stack, +subtype request content-types.",
  "C04": " Added: bodies whose end arrives separately, stream resets inside a frame, unary callers behind a peer that sends headers first, a bare hyper HTTP/2 server over the real channel in three layouts.",
  "C05": " Added: headers-only responses, reconfiguration between two calls, a first call refused by the peer, clones, handler metadata grpc-encoding, a flagged frame behind a valid one.",
  "C06": " Added: bodies with exact sizes, limits around the decompressed length, cloned clients/servers, a second call after a refusal, a request stream that never ends behind an oversized prefix.",
- "C07": " Added: receiver size limits, 70 000-byte messages with frame-shaped neighbours, a 400-byte byte-by-byte drip, runs of up to 10^6 empty DATA frames decoded in child processes.",
+ "C07": " Added: receiver size limits, 70 000-byte messages with frame-shaped neighbours, a 400-byte byte-by-byte drip, runs of up to 10^6 empty DATA frames decoded in child processes; oracle added in wave 6: a body that stops inside a length prefix or a payload must end with an error (found and fixed 4063d39d).",
  "C08": " Added: OK trailers of streaming calls, statuses behind foreign error types, an interceptor's user-agent over the real channel; padded base64 on the wire is accepted.",
  "C09": " Added: zero deadlines, sequences of calls on one channel, callers that stay away, calls moved to another task.",
  "C10": " Added: add_routes / optional services, request streams that never end and 3 MiB messages on unknown paths, PUT / GET and +subtype content-types.",
@@ -87,10 +87,10 @@ ADDED = {
  "C13": " Added: listener ending, accept errors, max_connection_age around the signal, idle clients, a request reaching an unused connection together with the signal.",
  "C14": " Added: a connector that never answers, keeps the tower contract and fails for rotating reasons (incl. a Status of its own); discovery histories of a balanced channel with reachable and unreachable endpoints over loopback sockets.",
  "C15": " Added: failed handshakes followed by plaintext / proper clients, connection sequences (resumed session without ALPN, second listener requiring a certificate, clones of one ClientTlsConfig), balanced endpoints with different TLS settings over a loopback TLS server.",
- "C16": " Added: sized inner responses, case variants of the grpc-web content types, inner responses labelled application/grpc+proto / +json.",
- "C17": " Added: segmented transport buffers, 9000-byte messages cut around the 8 KiB buffer, response content-type spellings, lost wake-ups.",
+ "C16": " Added: sized inner responses, case variants of the grpc-web content types, inner responses labelled application/grpc+proto / +json, a trailer value with non-UTF-8 octets.",
+ "C17": " Added: segmented transport buffers, 9000-byte messages cut around the 8 KiB buffer, response content-type spellings, lost wake-ups, 3-4 frames of unequal sizes under every pair of cuts and in equal blocks, trailers frames with stray CR / LF / NUL bytes (termination only).",
  "C18": " Added: typed set_serving API, a second reporter handle, fresh wakers after an idle poll, service names with surrounding blanks.",
- "C19": " Added: present-but-empty package, proto3 optional fields with their synthetic oneofs.",
+ "C19": " Added: present-but-empty package, proto3 optional fields with their synthetic oneofs, files carrying SourceCodeInfo (comments and spans).",
  "C20": " Added: unary callers behind a headers-first peer, statuses behind a layer error, padded peers, list getters on partly undecodable details.",
 }
 
